@@ -499,6 +499,13 @@ pub fn run(opts: &Opts, out: &mut Emitter, prop: &str) {
             (vec![5, 5], vec![10]),
             (vec![big, big, big], vec![big, big]),
             (vec![1], vec![big, 2]),
+            // every entry fits 64 bits, the net does not: compilation must fail, not drop the asset
+            (vec![big, 1], vec![]),
+            (vec![1 << 62, 1 << 62], vec![]),
+            (vec![], vec![big, big]),
+            (vec![big, big], vec![1]),
+            (vec![big, 2], vec![1]),
+            (vec![], vec![1 << 62, 1 << 62, 1]),
         ];
         for (ms, bs) in shapes {
             let mut t = empty_tx();
@@ -506,6 +513,40 @@ pub fn run(opts: &Opts, out: &mut Emitter, prop: &str) {
             t.mints.push(tir::Mint { amount: E::Assets(ms.iter().map(|a| mk(*a)).collect()), redeemer: E::None });
             t.burns.push(tir::Mint { amount: E::Assets(bs.iter().map(|a| mk(*a)).collect()), redeemer: E::None });
             out.case("mint-stress", || case(&t, false, true));
+            // the same entries spread over one block each
+            let mut t2 = empty_tx();
+            t2.fees = ada(1);
+            for a in ms.iter() {
+                t2.mints.push(tir::Mint { amount: E::Assets(vec![mk(*a)]), redeemer: E::None });
+            }
+            for a in bs.iter() {
+                t2.burns.push(tir::Mint { amount: E::Assets(vec![mk(*a)]), redeemer: E::None });
+            }
+            out.case("mint-stress-blocks", || case(&t2, false, true));
+        }
+        // random: 2-5 entries of magnitude around 2^61..2^63 over 1-3 blocks and two asset names
+        let mut r = crate::common::Rng::new(opts.seed ^ 0x3173);
+        for _ in 0..(opts.n / 10).max(40) {
+            let mut t = empty_tx();
+            t.fees = ada(1);
+            let n = 2 + r.below(4);
+            for _ in 0..n {
+                let mag: i128 = match r.below(4) {
+                    0 => big,
+                    1 => 1 << 62,
+                    2 => (1 << 62) + r.below(1000) as i128,
+                    _ => (1i128 << 61) * (1 + r.below(3) as i128),
+                };
+                let name: &[u8] = if r.chance(1, 4) { b"N" } else { b"M" };
+                let e = tir::AssetExpr { policy: E::Bytes(policy(1)), asset_name: E::Bytes(name.to_vec()), amount: E::Number(mag) };
+                let block = tir::Mint { amount: E::Assets(vec![e]), redeemer: E::None };
+                if r.chance(2, 3) {
+                    t.mints.push(block)
+                } else {
+                    t.burns.push(block)
+                }
+            }
+            out.case("mint-stress-random", || case(&t, false, true));
         }
     }
     for k in 0..opts.n {
